@@ -95,6 +95,14 @@ pub fn observe_pair(a: i64, b: i64) -> Value {
         let v: Vec<Value> = f.iter().map(|t| observe(t)).collect();
         obs.insert(op.to_string(), Value::Array(v));
     }
+    // unary minus of a: on the operand's own spelling, on a parameter and on a global
+    let ta = operand_text(a);
+    let neg = [
+        format!("-{ta}"),
+        format!("functie f(x) {{ -x }} f({ta})"),
+        format!("stel v = {ta}; -v"),
+    ];
+    obs.insert("neg".to_string(), Value::Array(neg.iter().map(|t| observe(t)).collect()));
     Value::Object(obs)
 }
 
